@@ -5,6 +5,7 @@ package main
 import (
 	"fmt"
 	"go/token"
+	"go/types"
 	"os"
 	"sort"
 	"strings"
@@ -125,23 +126,79 @@ func c05Flush(w *World, r *Report) {
 			fns = append(fns, fn)
 		}
 	}
-	// self-flushing helpers: store a descriptor field and call writeGDT themselves
+	// self-flushing helpers: in-package functions that change a group descriptor (possibly through a pointer handed
+	// out by an accessor, so any store to non-local memory counts) and write the GDT themselves on every path on which
+	// they stored anything; they reach writeGDT, and they are not larger operations (they do not write bitmaps).
+	reachesFn := func(from *ssa.Function, targets ...*ssa.Function) bool {
+		reach := w.reachableFrom([]*ssa.Function{from}, func(f *ssa.Function) bool { return w.pkgOf(f) == pE4c })
+		for _, t := range targets {
+			if _, ok := reach[t]; ok && t != from {
+				return true
+			}
+		}
+		return false
+	}
+	nonLocalStore := func(ins ssa.Instruction) bool {
+		st, ok := ins.(*ssa.Store)
+		if !ok {
+			return false
+		}
+		base := st.Addr
+		for k := 0; k < 4; k++ {
+			switch x := base.(type) {
+			case *ssa.FieldAddr:
+				base = x.X
+			case *ssa.IndexAddr:
+				base = x.X
+			}
+		}
+		_, local := base.(*ssa.Alloc)
+		return !local
+	}
 	selfFlush := map[*ssa.Function]bool{}
 	for _, fn := range fns {
-		if fn == wib || fn == wbb {
+		if fn == wib || fn == wbb || fn == writeGDT || token.IsExported(fn.Name()) || fn.Signature.Recv() == nil {
 			continue
 		}
-		stores, flushes := false, false
-		allInstrs(fn, func(ins ssa.Instruction) {
-			if _, ok := storeToShared(ins, "groupDescriptor"); ok {
-				stores = true
+		if !reachesFn(fn, writeGDT) || reachesFn(fn, wib, wbb, writeSB) {
+			continue
+		}
+		rule := &flowRule{w: w, maxDepth: 4}
+		rule.inline = func(g *ssa.Function, site ssa.CallInstruction) bool { return w.pkgOf(g) == pE4c && g != writeGDT }
+		rule.step = func(ins ssa.Instruction, s int) (uint64, bool) {
+			if nonLocalStore(ins) {
+				return 1 << 1, true
 			}
 			if c, ok := ins.(ssa.CallInstruction); ok && c.Common().StaticCallee() == writeGDT {
-				flushes = true
+				return 1 << 0, true
 			}
-		})
-		if stores && flushes && strings.Contains(fn.Name(), "GD") {
-			selfFlush[fn] = true
+			return 0, false
+		}
+		res := rule.run(fn, 1<<0, 0)
+		clean, any := true, false
+		for _, m := range res.successReturns() {
+			any = true
+			if m&(1<<1) != 0 {
+				clean = false
+			}
+		}
+		stores := false
+		for f := range w.reachableFrom([]*ssa.Function{fn}, func(f *ssa.Function) bool { return w.pkgOf(f) == pE4c && f != writeGDT }) {
+			allInstrs(f, func(ins ssa.Instruction) {
+				if nonLocalStore(ins) {
+					stores = true
+				}
+			})
+		}
+		if any && stores {
+			selfFlush[fn] = clean
+		}
+	}
+	var brokenHelpers []*ssa.Function
+	for fn, ok := range selfFlush {
+		if !ok {
+			brokenHelpers = append(brokenHelpers, fn)
+			delete(selfFlush, fn)
 		}
 	}
 	type spec struct {
@@ -174,32 +231,22 @@ func c05Flush(w *World, r *Report) {
 		},
 		flush: func(c ssa.CallInstruction) bool { return c.Common().StaticCallee() == writeSB },
 	}
-	// 1. inside each self-flushing helper: every path that stores reaches writeGDT
+	// 1. the helpers found: each is an obligation (a helper that changes a descriptor and can return without writing
+	// the GDT is reported; its callers then see it as an ordinary function)
 	var hs []*ssa.Function
 	for h := range selfFlush {
 		hs = append(hs, h)
 	}
 	sort.Slice(hs, func(i, j int) bool { return hs[i].Name() < hs[j].Name() })
 	for _, h := range hs {
-		rule := &flowRule{w: w}
-		rule.step = func(ins ssa.Instruction, s int) (uint64, bool) {
-			if _, ok := storeToShared(ins, "groupDescriptor"); ok {
-				return 1 << 1, true
-			}
-			if c, ok := ins.(ssa.CallInstruction); ok && c.Common().StaticCallee() == writeGDT {
-				return 1 << 0, true
-			}
-			return 0, false
+		r.Ok("C05-a", fnName(h), "self-flushing helper writes the GDT on every path that changes a descriptor", w.relFile(h.Pos()), "")
+	}
+	sort.Slice(brokenHelpers, func(i, j int) bool { return brokenHelpers[i].Name() < brokenHelpers[j].Name() })
+	for _, h := range brokenHelpers {
+		if strings.Contains(h.Name(), "GD") {
+			r.Fail("C05-a", fnName(h), "self-flushing helper writes the GDT on every path that changes a descriptor", w.relFile(h.Pos()),
+				"a path through this helper changes a group descriptor field and returns successfully without writeGDT: its callers rely on it as the flush point")
 		}
-		res := rule.run(h, 1<<0, 0)
-		bad := false
-		for _, m := range res.successReturns() {
-			if m&(1<<1) != 0 {
-				bad = true
-			}
-		}
-		r.Check(!bad, "C05-a", fnName(h), "self-flushing helper writes the GDT on every path that changes a descriptor", w.relFile(h.Pos()), "",
-			"a path through this helper changes a group descriptor field and returns successfully without writeGDT: its callers rely on it as the flush point")
 	}
 	// 2. public mutating API: clean at every success return
 	var entries []*ssa.Function
@@ -562,14 +609,67 @@ func bitmapKind(v ssa.Value, seen map[ssa.Value]bool, depth int) map[string]bool
 		add(mapValues(x.X, seen, depth+1))
 	case *ssa.UnOp:
 		if x.Op == token.MUL {
+			if fa, ok := x.X.(*ssa.FieldAddr); ok {
+				add(structFieldKinds(fa.X.Type(), fa.Field, seen, depth))
+				break
+			}
 			for _, st := range cellStores(x.X) {
 				add(bitmapKind(st.Val, seen, depth+1))
 			}
 		}
 	case *ssa.Parameter:
-		out["param"] = true
+		// bound to the actuals of the in-module call sites (a bitmap handed to a phase helper)
+		fn := x.Parent()
+		idx := -1
+		for i, p := range fn.Params {
+			if p == x {
+				idx = i
+			}
+		}
+		n := 0
+		if bitmapW != nil && idx >= 0 {
+			for _, caller := range bitmapW.ModFns {
+				if caller.Blocks == nil {
+					continue
+				}
+				for _, c := range calls(caller, true, func(c ssa.CallInstruction) bool { return c.Common().StaticCallee() == fn }) {
+					if idx < len(c.Common().Args) {
+						n++
+						add(bitmapKind(c.Common().Args[idx], seen, depth+1))
+					}
+				}
+			}
+		}
+		if n == 0 {
+			out["param"] = true
+		}
+	case *ssa.Field:
+		add(structFieldKinds(x.X.Type(), x.Field, seen, depth))
 	default:
 		out["other"] = true
+	}
+	return out
+}
+
+var bitmapW *World
+
+// structFieldKinds: what the module stores into field k of struct type t (a bitmap carried in a small struct).
+func structFieldKinds(t types.Type, k int, seen map[ssa.Value]bool, depth int) map[string]bool {
+	out := map[string]bool{}
+	st, ok := deref(t).Underlying().(*types.Struct)
+	if !ok || bitmapW == nil || k >= st.NumFields() {
+		out["other"] = true
+		return out
+	}
+	bitmapW.buildFieldIndex()
+	sts := bitmapW.fieldStoreIns[st.Field(k)]
+	if len(sts) == 0 {
+		out["other"] = true
+	}
+	for _, s := range sts {
+		for kk := range bitmapKind(s.Val, seen, depth+1) {
+			out[kk] = true
+		}
 	}
 	return out
 }
@@ -650,6 +750,7 @@ func (w *World) shapeOf(ts []term) idxShape {
 }
 
 func c05BitIndex(w *World, r *Report, rule string) {
+	bitmapW = w
 	var fns []*ssa.Function
 	for _, fn := range w.ModFns {
 		if w.pkgOf(fn) == pE4c && fn.Blocks != nil {
